@@ -2,8 +2,8 @@
 from ..wrun import run_worlds, canary_floor
 
 ASSUME_WORLD = [
-    "cw-multi-test 0.16.1 (the simulator the repository's own integration tests use) with cw20-base 1.0.0 stands in for the chain; honest tokens (no fee-on-transfer)",
-    "inputs a real chain cannot produce are not generated (duplicate or zero-amount coins in funds, non-normalised addresses, totals above 2^124)",
+    "cw-multi-test 0.16.1 (the simulator the repository's own integration tests use) with cw20-base 1.0.0 stands in for the chain; honest tokens (no fee-on-transfer) that refuse zero-amount transfers; in 30% of the worlds one traded token is another implementation of the cw20 standard with its own storage layout",
+    "inputs a real chain cannot produce are mostly not generated (duplicate or zero-amount coins in funds); a letter-case variant of an account name is the same account (the codec folds case); some simulator-only inputs are used as probes (digit-leading denoms, account names with blanks or of illegal length, one holding of 2^128-1 in C11)",
     "ledger = balances of every account incl. all contracts x every asset, every cw20 supply, bystander allowances, storage digest of every contract, snapshotted after every step",
     "contract panic = transaction abort (caught in the adapter; the simulator's transactional cache leaves state untouched)",
 ]
